@@ -8,7 +8,7 @@ V = os.path.dirname(os.path.dirname(os.path.abspath(__file__)))
 E1 = "vsched: serialising preemption-bounded scheduler + state cache over the compiled library (engine/, harness/%s)"
 CHECKS = {
     "C01": ("locks.cpp", "grant registry (S/SIX/X matrix) and torn-payload monitor evaluated at every step of every interleaving of every client program of families p2x2, p3x1 (+optimistic/PrepareRead families) on all three lock classes",
-            "stateless schedule exploration of the implementation (preemption bound 2 quick / 3 thorough, state cache), grant-registry monitor"),
+            "stateless schedule exploration of the implementation (two-thread families without preemption bound, three threads at bound 2 quick / 3 thorough, state cache), grant-registry monitor; every state of the guard-algebra search against one contending section, all interleavings (--galg-contend)"),
     "C02": ("locks.cpp", "every explored execution must terminate (deadlock / lost hand-off rule of the scheduler) and a fresh LockX by an epilogue thread must succeed without waiting; final lock word must be free",
             "schedule exploration with waiting made visible (spin detection), deadlock rule, epilogue thread; breadth-first search over single-thread guard-operation histories keyed by implementation state (--galg)"),
     "C03": ("locks.cpp", "version ghost + commit counter: every VerifyVersion/TryLock*/GetVersion result is checked at its deciding atomic step against the registry and the ghost version, optimistic payload snapshots are compared with the committed value",
@@ -20,17 +20,17 @@ CHECKS = {
     "C06": ("zipf_enum.cpp", "range and inverse-CDF bracket of operator() for every equivalence class of 64-bit engine outputs of every configuration of the grid, both classes, four integer types; wide 32-bit ranges (bin counts next to 2^30, 2^31, 2^32) of the approximate class",
             "exhaustive enumeration of engine-output classes per configuration (bounded input model checking against the CDF)"),
     "C07": ("locks.cpp", "operator bool of every guard after every operation equals the reference ownership model; every release call performs exactly one release, non-owning guards write nothing; sequential guard algebra (move/convert/destroy chains on two locks) and the same with a contender",
-            "explicit-state breadth-first search over all admissible single-thread guard-operation histories (acquire, destroy, default/move construction, move assignment, conversions; depth 8/5/6 quick) replayed on the real guards and keyed by their object representation; the same algebra under all interleavings with contenders (guards2/3) against an ownership model; deadlock with an empty grant registry = release that did not release"),
+            "explicit-state breadth-first search over all admissible single-thread guard-operation histories (acquire, destroy, default/move construction, move assignment, conversions; depth 8/5/6 quick) replayed on the real guards and keyed by their object representation; the same algebra under all interleavings with contenders (hand-written sections guards2/3, and every state representative of the search against one contending section: --galg-contend) against an ownership model; deadlock with an empty grant registry = release that did not release"),
     "C08": ("locks.cpp", "happens-before event sets computed from the memory orders written in the source (C++20 release sequences, fences) on every explored SC interleaving: the end of every earlier conflicting section must happen-before the later section's grant",
             "schedule exploration + declared-order happens-before set analysis at every grant (an overlap of conflicting grants counts as unordered)"),
     "C09": ("locks.cpp", "ghost version advanced exactly at exclusive-grant ends to the prescribed value; invariant version-field == ghost after every write to the lock word; XGuard::GetVersion; wrap-around and SetVersion arguments; final word = version only",
             "schedule exploration of OptimisticLock with start versions near 2^32, version-ghost invariant on every step; breadth-first search over single-thread guard-operation histories (versions 0 and 2^32-2) keyed by implementation state"),
     "C10": ("locks.cpp", "no other SIX/X grant inside a conversion span, no S holder at UpgradeToX return, payload read under SIX unchanged at upgrade return, for U/D/DU/UD chains against 1-2 other threads",
-            "schedule exploration of conversion programs, grant-registry monitor with conversion spans"),
+            "schedule exploration of conversion programs, grant-registry monitor with conversion spans; every state of the guard-algebra search (incl. converted and moved guards) against a contending S/SIX/X/upgrade/downgrade section, all interleavings"),
     "C11": ("locks.cpp", "arrival stamp = first effective write to the lock word by a request; at every grant no conflicting request with an earlier stamp may still be waiting",
             "schedule exploration of MCSLock (3x1, 2x2, conv3, fifo4; thorough: 4 threads at bound 2-3), arrival/grant order monitor"),
     "C12": ("locks.cpp", "deterministic heap shadow: no access to a freed node, no access to a node sitting in a thread's spare-node cache, live nodes <= threads + outstanding requests, zero nodes after all threads exited (thread-exit destructors run under the scheduler)",
-            "schedule exploration of MCSLock with heap shadow (arena allocator, never reuses within an execution); breadth-first search over single-thread guard-operation histories with the node bound and leak check"),
+            "schedule exploration of MCSLock with heap shadow (arena allocator, never reuses within an execution); breadth-first search over single-thread guard-operation histories with the node bound and leak check, its states also against one contending section"),
     "C13": ("locks.cpp", "PrepareRead result checked at its deciding step: non-owning => version valid and no X registered; owning => registry empty at the granting CAS, VerifyVersion true, exactly one release (also after moves); retry numbers 0 and 1",
             "schedule exploration of PrepareRead callers x lockers with CPP_UTILITY_SPINLOCK_RETRY_NUM 0 and 1; single-thread history search including composite-guard moves"),
     "C14": ("idm.cpp", "oversubscribed runs (capacity+1, capacity+2 threads) must terminate; after all threads exited a fresh wave of `capacity` threads obtains IDs: at quiescence (every unfinished thread really waits) no thread may be stuck inside GetThreadID while fewer running threads hold IDs than there are IDs; the same when a client pins the heartbeat of an exiting thread and for salted thread ids; sequential histories at capacities 5..257",
